@@ -25,6 +25,7 @@ type Engine struct {
 	fset     *token.FileSet
 	pkgs     []*packages.Package
 	allPkgs  map[string]*packages.Package
+	typePkgs map[string]*types.Package
 	prog     *ssa.Program
 	cs       *ContractSet
 	files    []string // contract files read
@@ -32,10 +33,10 @@ type Engine struct {
 }
 
 func (e *Engine) pkgOf(path string) *types.Package {
-	if p, ok := e.allPkgs[path]; ok {
+	if p, ok := e.allPkgs[path]; ok && p.Types != nil {
 		return p.Types
 	}
-	return nil
+	return e.typePkgs[path]
 }
 
 func (e *Engine) importedPkg(from *types.Package, name string) *types.Package {
@@ -46,19 +47,19 @@ func (e *Engine) importedPkg(from *types.Package, name string) *types.Package {
 	}
 	// any loaded package with that name (spec files are not bound by Go imports)
 	var cands []string
-	for path, p := range e.allPkgs {
-		if p.Types != nil && p.Types.Name() == name {
+	for path, p := range e.typePkgs {
+		if p.Name() == name {
 			cands = append(cands, path)
 		}
 	}
 	sort.Strings(cands)
 	for _, c := range cands {
 		if strings.HasPrefix(c, modulePath) {
-			return e.allPkgs[c].Types
+			return e.typePkgs[c]
 		}
 	}
 	if len(cands) > 0 {
-		return e.allPkgs[cands[0]].Types
+		return e.typePkgs[cands[0]]
 	}
 	return nil
 }
@@ -139,20 +140,42 @@ func loadEngine(repo string, patterns []string, externDir string, modfile string
 }
 
 func loadEngineOverlay(repo string, patterns []string, externDir string, modfile string, overlay map[string][]byte) (*Engine, error) {
-	e := &Engine{repo: repo, fset: token.NewFileSet(), allPkgs: map[string]*packages.Package{}, cs: newContractSet()}
+	e := &Engine{repo: repo, fset: token.NewFileSet(), allPkgs: map[string]*packages.Package{}, typePkgs: map[string]*types.Package{}, cs: newContractSet()}
 	flags := []string{"-tags=verif"}
 	if modfile != "" {
 		flags = append(flags, "-modfile="+modfile)
 	}
+	// Phase 1: the kraken packages in the dependency closure of the patterns (names only).
+	lcfg := &packages.Config{
+		Mode:       packages.NeedName | packages.NeedImports | packages.NeedDeps,
+		Dir:        repo,
+		BuildFlags: flags,
+		Env:        os.Environ(),
+		Overlay:    overlay,
+	}
+	lpkgs, err := packages.Load(lcfg, patterns...)
+	if err != nil {
+		return nil, err
+	}
+	var roots []string
+	seenRoot := map[string]bool{}
+	packages.Visit(lpkgs, nil, func(p *packages.Package) {
+		if strings.HasPrefix(p.PkgPath, modulePath) && !seenRoot[p.PkgPath] {
+			seenRoot[p.PkgPath] = true
+			roots = append(roots, p.PkgPath)
+		}
+	})
+	sort.Strings(roots)
+	// Phase 2: those packages from source (syntax + types); everything else from export data.
 	cfg := &packages.Config{
-		Mode:       packages.LoadAllSyntax,
+		Mode:       packages.LoadSyntax,
 		Dir:        repo,
 		Fset:       e.fset,
 		BuildFlags: flags,
 		Env:        os.Environ(),
 		Overlay:    overlay,
 	}
-	pkgs, err := packages.Load(cfg, patterns...)
+	pkgs, err := packages.Load(cfg, roots...)
 	if err != nil {
 		return nil, err
 	}
@@ -167,6 +190,19 @@ func loadEngineOverlay(repo string, patterns []string, externDir string, modfile
 	})
 	if len(errs) > 0 {
 		return nil, fmt.Errorf("package errors: %s", strings.Join(errs, "; "))
+	}
+	var walk func(tp *types.Package)
+	walk = func(tp *types.Package) {
+		if tp == nil || e.typePkgs[tp.Path()] != nil {
+			return
+		}
+		e.typePkgs[tp.Path()] = tp
+		for _, imp := range tp.Imports() {
+			walk(imp)
+		}
+	}
+	for _, p := range pkgs {
+		walk(p.Types)
 	}
 	e.pkgs = pkgs
 	prog, _ := ssautil.AllPackages(pkgs, ssa.GlobalDebug|ssa.InstantiateGenerics)
